@@ -234,3 +234,114 @@ Proof.
   - exists [], SBad, s. apply dec_fail. exact E.
   - contradiction.
 Qed.
+
+(* ---- the executable loop follows the relation ------------------------------------------------------ *)
+Definition st_of (r : sres) : rres := match r with SMore => RPending | SBad => RErr end.
+
+(* with no read available, recv_frame's answer does not depend on its fuel once it exceeds the buffer length *)
+Lemma recv_frame_nil_fuel : Conn_continue_after_skip = true -> forall n (s : bytes), (length s < n)%nat ->
+  forall k1 k2, (length s < k1)%nat -> (length s < k2)%nat -> recv_frame k1 s [] = recv_frame k2 s [].
+Proof.
+  intros F. induction n as [|n IH]; intros s Hn k1 k2 H1 H2; [lia|].
+  destruct k1 as [|k1]; [lia|]. destruct k2 as [|k2]; [lia|]. cbn [recv_frame]. rewrite F.
+  pose proof (conn_parse_progress s) as P.
+  destruct (conn_parse s) as [m rest|rest| | |]; try reflexivity.
+  unfold len in P. apply IH; lia.
+Qed.
+
+Lemma recv_frame_dec : Conn_continue_after_skip = true -> forall s ms r tl, Dec s ms r tl ->
+  forall k, (length s < k)%nat ->
+  match ms with
+  | [] => recv_frame k s [] = (st_of r, tl, [])
+  | m :: ms' => exists rest, recv_frame k s [] = (RFrame m, rest, []) /\ Dec rest ms' r tl
+  end.
+Proof.
+  intros F. induction 1 as [s H|s H|s m rst ms r tl H D IH|s rst ms r tl H D IH]; intros k Hk;
+    (destruct k as [|k]; [lia|]); cbn [recv_frame]; rewrite H.
+  - reflexivity.
+  - reflexivity.
+  - exists rst. split; [reflexivity | exact D].
+  - rewrite F. pose proof (conn_parse_progress s) as P. rewrite H in P. unfold len in P. apply IH. lia.
+Qed.
+
+(* drain = the relation: calling recv_frame until it is pending or fails delivers exactly the messages of Dec *)
+Theorem drain_dec : Conn_continue_after_skip = true -> forall s ms r tl, Dec s ms r tl ->
+  forall fuel acc, (length ms < fuel)%nat -> drain fuel s [] acc = (acc ++ ms, st_of r, tl).
+Proof.
+  intros F s ms. revert s. induction ms as [|m ms IH]; intros s r tl D fuel acc Hf; (destruct fuel as [|fuel]; [cbn in Hf; lia|]); cbn [drain].
+  - pose proof (recv_frame_dec F s [] r tl D (S (length s + length (concat (@nil bytes)) + length (@nil bytes))) ltac:(cbn; lia)) as R.
+    cbn [concat length] in *. rewrite R. rewrite app_nil_r. destruct r; reflexivity.
+  - destruct (recv_frame_dec F s (m :: ms) r tl D (S (length s + length (concat (@nil bytes)) + length (@nil bytes))) ltac:(cbn; lia)) as (rest & R & D').
+    cbn [concat length] in *. rewrite R. rewrite (IH rest r tl D' fuel (acc ++ [m])) by (cbn in Hf; lia). rewrite <- app_assoc. reflexivity.
+Qed.
+
+(* one read arriving while the decoder waits: the loop continues on the extended buffer *)
+Lemma recv_frame_read : forall s c k, conn_parse s = PWait -> c <> [] -> recv_frame (S k) s [c] = recv_frame k (s ++ c) [].
+Proof. intros s c k H Hc. cbn [recv_frame]. rewrite H. destruct c; [congruence | reflexivity]. Qed.
+
+Theorem drain_read : Conn_continue_after_skip = true -> forall s c ms r tl, conn_parse s = PWait -> c <> [] -> Dec (s ++ c) ms r tl ->
+  forall fuel acc, (length ms < fuel)%nat -> drain fuel s [c] acc = (acc ++ ms, st_of r, tl).
+Proof.
+  intros F s c ms r tl Hw Hc D fuel acc Hf. destruct fuel as [|fuel]; [lia|]. cbn [drain].
+  rewrite recv_frame_read by assumption. cbn [concat length]. rewrite app_nil_r.
+  assert (Hk : (length (s ++ c) < length s + length c + 1)%nat) by (rewrite app_length; lia).
+  pose proof (recv_frame_dec F (s ++ c) ms r tl D (length s + length c + 1)%nat Hk) as R.
+  destruct ms as [|m ms].
+  - rewrite R. rewrite app_nil_r. destruct r; reflexivity.
+  - destruct R as (rest & R & D'). rewrite R. rewrite (drain_dec F rest ms r tl D' fuel (acc ++ [m])) by (cbn in Hf; lia).
+    rewrite <- app_assoc. reflexivity.
+Qed.
+
+Lemma dec_tail_waits s ms tl : Dec s ms SMore tl -> conn_parse tl = PWait.
+Proof. remember SMore as r. induction 1; try discriminate; auto. Qed.
+
+Lemma dec_length s ms r tl : Dec s ms r tl -> (length ms <= length s)%nat.
+Proof.
+  induction 1 as [s H|s H|s m rst ms r tl H D IH|s rst ms r tl H D IH]; cbn [length]; try lia.
+  - pose proof (conn_parse_progress s) as P. rewrite H in P. unfold len in P. lia.
+  - pose proof (conn_parse_progress s) as P. rewrite H in P. unfold len in P. lia.
+Qed.
+
+Lemma dec_app_bad s ms rest c : Conn_skip_needs_body = true -> Dec s ms SBad rest -> Dec (s ++ c) ms SBad (rest ++ c).
+Proof.
+  intros F D. remember SBad as r eqn:Er. induction D as [s H|s H|s m rst ms r tl H D IH|s rst ms r tl H D IH].
+  - discriminate.
+  - pose proof (conn_parse_stable s c F) as S. rewrite H in S. apply dec_fail. exact S.
+  - pose proof (conn_parse_stable s c F) as S. rewrite H in S. eapply dec_deliver; [exact S | apply IH; assumption].
+  - pose proof (conn_parse_stable s c F) as S. rewrite H in S. eapply dec_skip; [exact S | apply IH; assumption].
+Qed.
+
+(* the receive loop as the peer task runs it: one read at a time, recv_frame called until pending; it stops at an error *)
+Fixpoint exec (buf : bytes) (chunks : list bytes) (acc : list msg) : list msg * rres * bytes :=
+  match chunks with
+  | [] => (acc, RPending, buf)
+  | c :: cs =>
+      match drain (S (length buf + length c + 2)) buf [c] [] with
+      | (ms, RPending, buf') => exec buf' cs (acc ++ ms)
+      | (ms, r, buf') => (acc ++ ms, r, buf')
+      end
+  end.
+
+(* THE EXECUTABLE LOOP IS SEGMENTATION INDEPENDENT: whatever the (non-empty) reads, it delivers the messages of the whole
+   stream; it ends pending with exactly the undecoded remainder buffered, or with an error where the stream is malformed *)
+Theorem exec_segmentation_independent : Conn_skip_needs_body = true -> Conn_continue_after_skip = true ->
+  forall chunks buf acc s0 ms0, Forall (fun c => c <> []) chunks -> Dec s0 ms0 SMore buf ->
+  exists ms r tl, Dec (s0 ++ concat chunks) (ms0 ++ ms) r tl /\
+                  exec buf chunks acc = (acc ++ ms, st_of r, match r with SMore => tl | SBad => snd (exec buf chunks acc) end).
+Proof.
+  intros F1 F2. induction chunks as [|c cs IH]; intros buf acc s0 ms0 Hne D0.
+  - exists [], SMore, buf. cbn [concat exec]. rewrite !app_nil_r. split; [exact D0 | reflexivity].
+  - inversion Hne as [|? ? Hc Hne']; subst. cbn [exec concat].
+    destruct (dec_total (buf ++ c) F1) as (ms1 & r1 & tl1 & D1).
+    pose proof (dec_length _ _ _ _ D1) as HL. rewrite app_length in HL.
+    rewrite (drain_read F2 buf c ms1 r1 tl1 (dec_tail_waits _ _ _ D0) Hc D1) by lia. cbn [app].
+    pose proof (dec_app s0 ms0 buf c F1 D0 ms1 r1 tl1 D1) as D01.
+    destruct r1; cbn [st_of].
+    + destruct (IH tl1 (acc ++ ms1) (s0 ++ c) (ms0 ++ ms1) Hne' D01) as (ms & r & tl & D & E).
+      exists (ms1 ++ ms), r, tl. split.
+      * rewrite <- !app_assoc in D. exact D.
+      * rewrite <- !app_assoc in E. exact E.
+    + exists ms1, SBad, (tl1 ++ concat cs). split.
+      * rewrite app_assoc. apply dec_app_bad; assumption.
+      * reflexivity.
+Qed.
